@@ -35,6 +35,11 @@ ASSUMPTIONS = [
     "after assemble + backport, after assemble + clear, or for the second time (history drawn per case)",
     "the end cross-section of a swept sketch is the image of the start sketch under the sweep computed by the harness "
     "(translation / rotation / scaling by Rodrigues); face centres are compared at 1e-6 x sketch size",
+    "a caller may modify a list it was handed by a property or method that computes it on request (shape.operations, "
+    "stack.operations, Stack.get_slice, RoundSolidShape.core / .shell): after extend / clear / reverse of every such "
+    "list all positional checks and the delete check are repeated on fresh queries. Lists that are the object's own "
+    "storage on the reference tree (shape.grid rows, sketch.grid / core / shell / faces, Hemisphere.operations, "
+    "RevolvedRing.operations / .shell) are never modified by the harness",
     "after a deletion every remaining operation carries the same count on all axes, so the write cannot fail for lack "
     "of chops; a failing write is labelled inconclusive, not judged",
 ]
@@ -49,6 +54,8 @@ DISTINCT_SIZES = [s for s in SIZES if len(set(s)) == 3]
 @st.composite
 def stack_cases(draw, how: str):
     n1, n2, t = draw(st.sampled_from(DISTINCT_SIZES)) if draw(st.integers(0, 3)) else draw(st.sampled_from(SIZES))
+    if draw(st.sampled_from([False, False, False, True])):
+        n2 = 1  # single-row grid: shape.operations has nothing to flatten
     sp = {"kind": "Grid", "r": draw(xs.radii), "phi": 0.0, "n1": n1, "n2": n2, "aspect": draw(st.floats(0.3, 3.0))}
     q = draw(xs.sweep_params(how))
     q["repeats"] = t
@@ -57,6 +64,7 @@ def stack_cases(draw, how: str):
         "how": how, "sketch": sp, "sweep": q, "place": draw(xs.placements()), "counts": counts,
         "pick": [draw(st.integers(0, n1 - 1)), draw(st.integers(0, n2 - 1)), draw(st.integers(0, t - 1))],
         "history": draw(st.sampled_from(HISTORIES)),
+        "mutate": draw(st.sampled_from(MUTATIONS)),
     }
 
 
@@ -86,6 +94,28 @@ class Decoder:
         return self.keys[m] if d[m] <= self.tol else None
 
 
+MUTATIONS = ["extend", "clear", "reverse"]
+
+
+def mutate_returned(lists: List[list], how: str) -> int:
+    """A caller modifies the lists it was handed (gathering two slices with +=, emptying or reordering its copy).
+    Only lists that the object computes on request are passed in; addressing must not depend on them afterwards.
+    Returns the number of lists changed."""
+    snapshot = [list(x) for x in lists]
+    done = 0
+    for k, lst in enumerate(lists):
+        if not isinstance(lst, list):
+            continue
+        if how == "extend":
+            lst += snapshot[(k + 1) % len(snapshot)]
+        elif how == "clear":
+            lst.clear()
+        else:
+            lst.reverse()
+        done += 1
+    return done
+
+
 def stack_facts(case) -> dict:
     sp, q = case["sketch"], case["sweep"]
     return {"how": case["how"], "n1": sp["n1"], "n2": sp["n2"], "tiers": q["repeats"]}
@@ -105,47 +135,65 @@ def check_stack(case, ctx: Ctx) -> None:
         raise Violation("construction-failed", f"{type(ex).__name__}: {str(ex)[:200]}", **facts) from None
     stack = spec.extra["shape"]
 
-    # (a) grid[k][j][i] is column i, row j, tier k
-    grid = stack.grid
-    dims = (len(grid), sorted({len(g) for g in grid}), sorted({len(row) for g in grid for row in g}))
-    if dims != (t, [n2], [n1]):
-        raise Violation("grid-dimensions", f"grid is {dims[0]} x {dims[1]} x {dims[2]} lists, expected {t} x [{n2}] x [{n1}] "
-                        "(tier, row, column)", **facts)
-    for k, j, i in itertools.product(range(t), range(n2), range(n1)):
-        got = decode(grid[k][j][i].center)
-        if got != (i, j, k):
-            raise Violation("grid-address", f"grid[{k}][{j}][{i}] lies at cell (column, row, tier) = {got}",
-                            index=[k, j, i], **facts)
-    # the two-level grids of the base sketch and of each tier's shape follow the same rule
-    base = stack.shapes[0].sketch_1
-    M = xs.frame(place)
-    for j, i in itertools.product(range(n2), range(n1)):
-        want = W(M, [(i + 0.5) * sp["r"] / n1, (j + 0.5) * sp["r"] * sp["aspect"] / n2, 0.0])
-        if np.linalg.norm(base.grid[j][i].center - want) > 1e-6 * cell:
-            raise Violation("sketch-grid-address", f"sketch.grid[{j}][{i}] is not the face in column {i}, row {j}", **facts)
-    for k, shape in enumerate(stack.shapes):
-        for j, i in itertools.product(range(n2), range(n1)):
-            if decode(shape.grid[j][i].center) != (i, j, k):
-                raise Violation("shape-grid-address", f"shapes[{k}].grid[{j}][{i}] is not at column {i}, row {j}", **facts)
-
-    # (b) slices: exactly the operations with that index along the axis, each once
-    all_ids = {id(op) for op in stack.operations}
     sizes = (n1, n2, t)
-    for axis in (0, 1, 2):
-        for m in range(-sizes[axis], sizes[axis]):
-            try:
-                ops = stack.get_slice(axis, m)
-            except Exception as ex:  # noqa: BLE001
-                raise Violation("slice-raises", f"get_slice({axis}, {m}) raised {type(ex).__name__}: {ex}", axis=axis,
-                                **facts) from None
-            if len({id(op) for op in ops}) != len(ops) or not {id(op) for op in ops} <= all_ids:
-                raise Violation("slice-duplicates", f"get_slice({axis}, {m}) returns an operation twice or a foreign one",
-                                axis=axis, **facts)
-            got = sorted(decode(op.center) or (-1, -1, -1) for op in ops)
-            want = sorted(c for c in centres if c[axis] == m % sizes[axis])
-            if got != want:
-                raise Violation("slice-content", f"get_slice({axis}, {m}) returns cells {got}, expected {want}", axis=axis,
-                                index=m, **facts)
+
+    def positional(stack, facts_) -> None:
+        # (a) grid[k][j][i] is column i, row j, tier k
+        grid = stack.grid
+        dims = (len(grid), sorted({len(g) for g in grid}), sorted({len(row) for g in grid for row in g}))
+        if dims != (t, [n2], [n1]):
+            raise Violation("grid-dimensions", f"grid is {dims[0]} x {dims[1]} x {dims[2]} lists, expected {t} x [{n2}] x [{n1}] "
+                            "(tier, row, column)", **facts_)
+        for k, j, i in itertools.product(range(t), range(n2), range(n1)):
+            got = decode(grid[k][j][i].center)
+            if got != (i, j, k):
+                raise Violation("grid-address", f"grid[{k}][{j}][{i}] lies at cell (column, row, tier) = {got}",
+                                index=[k, j, i], **facts_)
+        # the two-level grids of the base sketch and of each tier's shape follow the same rule
+        base = stack.shapes[0].sketch_1
+        M = xs.frame(place)
+        for j, i in itertools.product(range(n2), range(n1)):
+            want = W(M, [(i + 0.5) * sp["r"] / n1, (j + 0.5) * sp["r"] * sp["aspect"] / n2, 0.0])
+            if np.linalg.norm(base.grid[j][i].center - want) > 1e-6 * cell:
+                raise Violation("sketch-grid-address", f"sketch.grid[{j}][{i}] is not the face in column {i}, row {j}", **facts_)
+        for k, shape in enumerate(stack.shapes):
+            for j, i in itertools.product(range(n2), range(n1)):
+                if decode(shape.grid[j][i].center) != (i, j, k):
+                    raise Violation("shape-grid-address", f"shapes[{k}].grid[{j}][{i}] is not at column {i}, row {j}", **facts_)
+
+        # (b) slices: exactly the operations with that index along the axis, each once
+        everything = stack.operations
+        if sorted(decode(op.center) or (-1, -1, -1) for op in everything) != sorted(centres):
+            raise Violation("operations-content", "stack.operations is not every cell of the stack exactly once", **facts_)
+        all_ids = {id(op) for op in everything}
+        for axis in (0, 1, 2):
+            for m in range(-sizes[axis], sizes[axis]):
+                try:
+                    ops = stack.get_slice(axis, m)
+                except Exception as ex:  # noqa: BLE001
+                    raise Violation("slice-raises", f"get_slice({axis}, {m}) raised {type(ex).__name__}: {ex}", axis=axis,
+                                    **facts_) from None
+                if len({id(op) for op in ops}) != len(ops) or not {id(op) for op in ops} <= all_ids:
+                    raise Violation("slice-duplicates", f"get_slice({axis}, {m}) returns an operation twice or a foreign one",
+                                    axis=axis, **facts_)
+                got = sorted(decode(op.center) or (-1, -1, -1) for op in ops)
+                want = sorted(c for c in centres if c[axis] == m % sizes[axis])
+                if got != want:
+                    raise Violation("slice-content", f"get_slice({axis}, {m}) returns cells {got}, expected {want}", axis=axis,
+                                    index=m, **facts_)
+
+    def handed_out(stack) -> List[list]:
+        """everything a caller can ask for that the stack computes on request"""
+        out = [stack.operations]
+        out += [shape.operations for shape in stack.shapes]
+        out += [stack.get_slice(axis, m) for axis in (0, 1, 2) for m in range(sizes[axis])]
+        return out
+
+    positional(stack, facts)
+    how = case.get("mutate", "extend")
+    mutate_returned(handed_out(stack), how)
+    positional(stack, dict(facts, after_caller=how))
+    grid = stack.grid
 
     # (c) chops placed through the grid show up at that location in the written file
     a, b, c = case["counts"]
@@ -176,6 +224,7 @@ def check_stack(case, ctx: Ctx) -> None:
         i, j, k = case["pick"]
         spec2 = xs.build_stack(sp, q, place)
         stack2 = spec2.extra["shape"]
+        mutate_returned(handed_out(stack2), how)
         for op in stack2.operations:
             at = decode(op.center)
             if at is None:  # cannot happen after (a); keeps the harness honest
@@ -200,7 +249,7 @@ def check_stack(case, ctx: Ctx) -> None:
     general = xs.is_general(place)
     ctx.nt(general and len({n1, n2, t}) == 3)
     ctx.label("general" if general else "aligned", "sizes-distinct" if len({n1, n2, t}) == 3 else "sizes-repeat",
-              f"cells<={10 * ((n1 * n2 * t + 9) // 10)}")
+              f"cells<={10 * ((n1 * n2 * t + 9) // 10)}", "caller:" + how, "single-row" if n2 == 1 else "multi-row")
 
 
 # --------------------------------------------------------------------------------------------------
@@ -307,6 +356,7 @@ def round_cases(draw, cls: str):
     p["which"] = draw(st.sampled_from(["core", "shell"]))
     p["m"] = draw(st.sampled_from(list(range(12))))
     p["history"] = draw(st.sampled_from(HISTORIES))
+    p["mutate"] = draw(st.sampled_from(MUTATIONS))
     return p
 
 
@@ -318,28 +368,45 @@ def check_round(case, ctx: Ctx) -> None:
         raise Violation("construction-failed", f"{type(ex).__name__}: {str(ex)[:200]}", **facts) from None
     shape = spec.extra["shape"]
     touches = touch_tests(spec, case)
-    try:
-        core, shell, ops = shape.core, shape.shell, shape.operations
-    except Exception as ex:  # noqa: BLE001
-        raise Violation("core-shell-raises", f"{case['cls']}.core / .shell raised {type(ex).__name__}: {ex}", **facts) from None
-    check_partition(case["cls"], core, shell, ops, lambda op: touches(op.point_array), facts)
     want = {"Cylinder": (4, 8), "SemiCylinder": (2, 4), "Frustum": (4, 8), "FrustumMid": (4, 8), "Elbow": (4, 8),
             "Hemisphere": (4, 12)}.get(case["cls"], (0, case.get("n", 0)))
-    if (len(core), len(shell)) != want:
-        raise Violation("core-shell-size", f"{len(core)} core and {len(shell)} shell operations, expected {want}", **facts)
-    # the shape's two-level grid: [core, shell] ([shell] for rings)
-    try:
-        grid = shape.grid
-    except Exception as ex:  # noqa: BLE001
-        raise Violation("grid-raises", f"{case['cls']}.grid raised {type(ex).__name__}: {ex}", **facts) from None
-    if any(touches(op.point_array) for op in (grid[0] if len(grid) > 1 else [])) or not all(
-            touches(op.point_array) for op in grid[-1]):
-        raise Violation("shape-grid-address", "grid[0] / grid[-1] are not the inner / outer operations", **facts)
+
+    def positional(facts_):
+        try:
+            core, shell, ops = shape.core, shape.shell, shape.operations
+        except Exception as ex:  # noqa: BLE001
+            raise Violation("core-shell-raises", f"{case['cls']}.core / .shell raised {type(ex).__name__}: {ex}",
+                            **facts_) from None
+        check_partition(case["cls"], core, shell, ops, lambda op: touches(op.point_array), facts_)
+        if (len(core), len(shell)) != want:
+            raise Violation("core-shell-size", f"{len(core)} core and {len(shell)} shell operations, expected {want}", **facts_)
+        # the shape's two-level grid: [core, shell] ([shell] for rings)
+        try:
+            grid = shape.grid
+        except Exception as ex:  # noqa: BLE001
+            raise Violation("grid-raises", f"{case['cls']}.grid raised {type(ex).__name__}: {ex}", **facts_) from None
+        if any(touches(op.point_array) for op in (grid[0] if len(grid) > 1 else [])) or not all(
+                touches(op.point_array) for op in grid[-1]):
+            raise Violation("shape-grid-address", "grid[0] / grid[-1] are not the inner / outer operations", **facts_)
+        if sorted(ids_of(op for row in grid for op in row)) != sorted(ids_of(ops)):
+            raise Violation("shape-grid-cover", "shape.grid does not hold every operation exactly once", **facts_)
+        return core, shell, ops
+
+    core, shell, ops = positional(facts)
+    # the caller modifies the lists it was handed; only lists the class computes on request (Hemisphere.operations and
+    # RevolvedRing.operations / .shell are the objects' own storage on the reference tree and are left alone)
+    how = case.get("mutate", "extend")
+    names = {"Hemisphere": ["core", "shell"], "RevolvedRing": []}.get(case["cls"], ["operations", "core", "shell"])
+    handed = [getattr(shape, nm) for nm in names]
+    if handed:
+        mutate_returned(handed, how)
+    core, shell, ops = positional(dict(facts, after_caller=how))
     lst = core if (case["which"] == "core" and len(core)) else shell
     victim = lst[case["m"] % len(lst)]
     delete_check(shape, ops, victim, facts, ctx, case.get("history", "write"))
     ctx.nt(xs.is_general(case["place"]))
-    ctx.label("general" if xs.is_general(case["place"]) else "aligned", "delete:" + ("core" if lst is core else "shell"))
+    ctx.label("general" if xs.is_general(case["place"]) else "aligned", "delete:" + ("core" if lst is core else "shell"),
+              "caller:" + how if handed else "caller:untouched")
 
 
 SKETCHES = ["OneCoreDisk", "FourCoreDisk", "HalfDisk", "QuarterDisk", "WrappedDisk", "Oval",
@@ -352,7 +419,7 @@ def sketch_cases(draw, kind: str):
         "kind": kind, "sketch": draw(xs.sketch_params(kind)), "place": draw(xs.placements()),
         "sweep": draw(st.sampled_from(["extrude-amount", "revolve", "loft"]).flatmap(xs.sweep_params)),
         "tier": draw(st.sampled_from([1, 0, 2])), "m": draw(st.sampled_from(list(range(12)))),
-        "history": draw(st.sampled_from(HISTORIES)),
+        "history": draw(st.sampled_from(HISTORIES)), "mutate": draw(st.sampled_from(MUTATIONS)),
     }
 
 
@@ -382,41 +449,50 @@ def check_sketch(case, ctx: Ctx) -> None:
     if sorted(ids_of(f for row in grid for f in row)) != sorted(ids_of(sketch.faces)):
         raise Violation("sketch-grid-cover", f"{kind}.grid does not hold every face exactly once", **facts)
 
-    # the shape lofted from it: grid[0] inner, grid[-1] outer operations (judged on the start face = the sketch)
-    sgrid = shape.grid
-    if [len(row) for row in sgrid] != [len(row) for row in grid]:
-        raise Violation("shape-grid-address", "shape.grid has a different layout from sketch.grid", **facts)
-    if len(sgrid) > 1 and any(touches(op.bottom_face.point_array) for op in sgrid[0]):
-        raise Violation("shape-grid-address", f"shape.grid[0] of a shape on {kind} holds an outer operation", **facts)
-    if not all(touches(op.bottom_face.point_array) for op in sgrid[-1]):
-        raise Violation("shape-grid-address", f"shape.grid[-1] of a shape on {kind} holds an inner operation", **facts)
-    if sorted(ids_of(op for row in sgrid for op in row)) != sorted(ids_of(shape.operations)):
-        raise Violation("shape-grid-cover", "shape.grid does not hold every operation exactly once", **facts)
-    # both ends of an addressed operation: it starts on sketch cell [i][j] and ends on the image of that cell under
-    # the sweep (the harness's own map), and the inner / outer rule holds on the end cross-section as well
-    to_start = np.linalg.inv(maps[1])
+    def shape_checks(facts_):
+        # the shape lofted from it: grid[0] inner, grid[-1] outer operations (judged on the start face = the sketch)
+        sgrid = shape.grid
+        if [len(row) for row in sgrid] != [len(row) for row in grid]:
+            raise Violation("shape-grid-address", "shape.grid has a different layout from sketch.grid", **facts_)
+        if len(sgrid) > 1 and any(touches(op.bottom_face.point_array) for op in sgrid[0]):
+            raise Violation("shape-grid-address", f"shape.grid[0] of a shape on {kind} holds an outer operation", **facts_)
+        if not all(touches(op.bottom_face.point_array) for op in sgrid[-1]):
+            raise Violation("shape-grid-address", f"shape.grid[-1] of a shape on {kind} holds an inner operation", **facts_)
+        if sorted(ids_of(op for row in sgrid for op in row)) != sorted(ids_of(shape.operations)):
+            raise Violation("shape-grid-cover", "shape.grid does not hold every operation exactly once", **facts_)
+        # both ends of an addressed operation: it starts on sketch cell [i][j] and ends on the image of that cell under
+        # the sweep (the harness's own map), and the inner / outer rule holds on the end cross-section as well
+        to_start = np.linalg.inv(maps[1])
 
-    def touches_end(points) -> bool:
-        return touches(rm.apply(to_start, np.asarray(points, float)))
+        def touches_end(points) -> bool:
+            return touches(rm.apply(to_start, np.asarray(points, float)))
 
-    for i, row_ in enumerate(sgrid):
-        for j, op in enumerate(row_):
-            start = np.asarray(grid[i][j].center, float)
-            for name, face, want in (("starts", op.bottom_face, start), ("ends", op.top_face, rm.apply(maps[1], start))):
-                if np.linalg.norm(np.asarray(face.center, float) - want) > 1e-6 * truth.size + 1e-9:
-                    raise Violation("shape-grid-end-face", f"shape.grid[{i}][{j}] on {kind} {name} on a face that is not "
-                                    f"cell [{i}][{j}] of that cross-section", end=name, index=[i, j], **facts)
-    if len(sgrid) > 1 and any(touches_end(op.top_face.point_array) for op in sgrid[0]):
-        raise Violation("shape-grid-address", f"shape.grid[0] of a shape on {kind} reaches the outer surface at its end face",
-                        **facts)
-    if not all(touches_end(op.top_face.point_array) for op in sgrid[-1]):
-        raise Violation("shape-grid-address", f"shape.grid[-1] of a shape on {kind} leaves the outer surface at its end face",
-                        **facts)
+        for i, row_ in enumerate(sgrid):
+            for j, op in enumerate(row_):
+                start = np.asarray(grid[i][j].center, float)
+                for name, face, want in (("starts", op.bottom_face, start), ("ends", op.top_face, rm.apply(maps[1], start))):
+                    if np.linalg.norm(np.asarray(face.center, float) - want) > 1e-6 * truth.size + 1e-9:
+                        raise Violation("shape-grid-end-face", f"shape.grid[{i}][{j}] on {kind} {name} on a face that is not "
+                                        f"cell [{i}][{j}] of that cross-section", end=name, index=[i, j], **facts_)
+        if len(sgrid) > 1 and any(touches_end(op.top_face.point_array) for op in sgrid[0]):
+            raise Violation("shape-grid-address", f"shape.grid[0] of a shape on {kind} reaches the outer surface at its end face",
+                            **facts_)
+        if not all(touches_end(op.top_face.point_array) for op in sgrid[-1]):
+            raise Violation("shape-grid-address", f"shape.grid[-1] of a shape on {kind} leaves the outer surface at its end face",
+                            **facts_)
+        return sgrid
+
+    sgrid = shape_checks(facts)
+    # the caller modifies the list of operations it was handed; addressing through the grid must not notice
+    how = case.get("mutate", "extend")
+    mutate_returned([shape.operations, shape.operations], how)
+    sgrid = shape_checks(dict(facts, after_caller=how))
     row = sgrid[case["tier"] % len(sgrid)]
     delete_check(shape, shape.operations, row[case["m"] % len(row)], facts, ctx, case.get("history", "write"))
     ctx.nt(xs.is_general(place))
     ctx.label("general" if xs.is_general(place) else "aligned", "sweep:" + case["sweep"]["how"],
-              f"delete-tier={case['tier'] % len(sgrid)}")
+              f"delete-tier={case['tier'] % len(sgrid)}", "caller:" + how,
+              "single-row" if len(sgrid) == 1 else "multi-row")
     if "shape" in sp:
         ctx.label("spline:" + sp["shape"])
 
